@@ -398,6 +398,7 @@ type ghostStmt struct {
 	rhs    *CExpr
 	when   *CExpr
 	assert *CExpr
+	choose []string
 	label  string
 	clause *Clause
 }
@@ -428,6 +429,21 @@ func (vc *VC) parseGhostStmts() {
 			g.when = w
 		}
 		body := strings.TrimSpace(m[5])
+		if c.Kw == "ghost" && strings.HasPrefix(body, "choose ") {
+			// choose <ghost lvalues> such that <definitional expr>
+			i := strings.Index(body, " such that ")
+			if i < 0 {
+				fail("%s:%d: ghost choose needs 'such that'", c.File, c.Line)
+			}
+			g.choose = splitTargets(body[len("choose "):i])
+			e, err := parseCExpr(strings.TrimSpace(body[i+len(" such that "):]))
+			if err != nil {
+				fail("%s:%d: %v", c.File, c.Line, err)
+			}
+			g.rhs = e
+			vc.ghostAnchors = append(vc.ghostAnchors, g)
+			continue
+		}
 		if c.Kw == "assert" {
 			e, err := parseCExpr(body)
 			if err != nil {
@@ -513,6 +529,28 @@ func (vc *VC) execGhost(st *State, g *ghostStmt, callRes ...Val) {
 	cond := tTrue
 	if g.when != nil {
 		cond = ec.evalBool(g.when)
+	}
+	if g.choose != nil {
+		// ghost choice: the chosen ghost locations get fresh values constrained by a definitional condition
+		before := map[string]Term{}
+		for k, v := range st.heap {
+			before[k] = v
+		}
+		for _, tgt := range g.choose {
+			ec.havocTarget(tgt)
+		}
+		ec2 := st.evalCtx()
+		ec2.names = names
+		st.assume(tImp(cond, ec2.evalBool(g.rhs)))
+		if cond.S != "true" {
+			for k, v := range st.heap {
+				if b, ok := before[k]; ok && b.S != v.S {
+					st.assume(tImp(tNot(cond), tEq(v, b)))
+				}
+			}
+		}
+		vc.assumptionsUsed["ghost choice ("+vc.key+"): "+g.rhs.String()] = true
+		return
 	}
 	if g.assert != nil {
 		lbl := g.label
